@@ -83,13 +83,6 @@ theorem call_len_nil {F : GFile} {w : GWorld} (h : F.findFunc "len" = none) :
   obtain ⟨k, rfl, -⟩ := succ_of_le hk
   rw [callG.eq_def]; simp [h]
 
-/-- the conversion `int32(x)` of an integer -/
-theorem call_int32 {F : GFile} {w : GWorld} {b : Nat} {s : Bool} {x : Int} (h : F.findFunc "int32" = none) :
-    CallS F w (.func "int32") [.int b s x] (.ok (.int 32 true (Sem.wrap 32 true x)) w) := by
-  refine ⟨1, fun k hk => ?_⟩
-  obtain ⟨k, rfl, -⟩ := succ_of_le hk
-  rw [callG.eq_def]; simp [h, isIntTy, convert]
-
 /-- what the file must (not) contain for the `Vec` builtins: `append`, `len`, `int32` keep their Go meaning -/
 structure VecLink (F : GFile) : Prop where
   append : F.findFunc "append" = none
